@@ -228,7 +228,8 @@ def run(tier, seed):
 def canaries(work, seed):
     out = []
     # (a) an in-memory mutant of the real class must be rejected
-    for mutant, only in (("partition_off", "chain:partition_2"), ("emit_skip_release", "fanout3")):
+    for mutant, only in (("partition_off", "chain:partition_2"), ("emit_skip_release", "fanout3"),
+                         ("batch_filter_drop", "batch:partition_2")):
         r2 = core.EngineResult("x")
         meta, traces, rej = _validate(work, "plain", r2, mutant=mutant, only=only, tier="quick", seed=seed)
         out.append(dict(name="mutant:" + mutant, detected=bool(rej),
